@@ -53,6 +53,9 @@ type mval struct {
 func (v mval) arg(f *field) interface{} {
 	switch v.form {
 	case "typed":
+		if f.k.serialized() && !v.lv.null {
+			return dbArg(v.lv.v) // a map value does not pass through the serializer: stored form
+		}
 		return goValue(f.k, v.lv).Interface()
 	case "basic":
 		return int(v.lv.v.(int64))
@@ -73,6 +76,9 @@ func (v mval) arg(f *field) interface{} {
 func (v mval) lit(f *field) string {
 	switch v.form {
 	case "typed":
+		if f.k.serialized() && !v.lv.null {
+			return strconv.Quote(dbArg(v.lv.v).(string))
+		}
 		return goLit(f.k, v.lv)
 	case "basic":
 		return fmt.Sprintf("int(%d)", v.lv.v.(int64))
@@ -194,6 +200,17 @@ type op struct {
 	chainOrder []int // order of the chain calls Model, Where, Select, Omit, Clauses (nil = this order)
 	reordered  bool
 	forms      map[string]bool
+	// update family: the chain carries Clauses(clause.Returning{...}): "" | "all" (RETURNING *) |
+	// "cols" (named columns retCols; the key columns are all named or none is)
+	returning string
+	retCols   []int
+	// next: a SECOND update finisher run on the same *gorm.DB handle (same chain: Model, Where, Select,
+	// Omit, Clauses) after this one, without a new Session; second marks such a follow-up;
+	// viaResult: it is called on the handle the first finisher returned (the chained spelling
+	// ....Updates(a).UpdateColumns(b)) instead of on the variable holding the chain
+	next      *op
+	second    bool
+	viaResult bool
 }
 
 // ---- generator ----------------------------------------------------------------------
@@ -251,6 +268,9 @@ func (g *gen) structVal(f *field) lval {
 	if f.k.wrap == "plain" {
 		if g.r.Chance(2, 5) {
 			return zeroBase(c)
+		}
+		if isColl(c) && g.r.Chance(1, 3) {
+			return emptyOf(c) // empty but not nil: NOT the zero value of a slice / map type
 		}
 		return fresh(c, g.next())
 	}
@@ -311,7 +331,9 @@ func (g *gen) mapVal(f *field, ctx string, o *op) mval {
 		v = mval{form: "typed", lv: fresh(c, g.next())}
 	case x < 12:
 		z := zeroBase(c)
-		if z.null {
+		if isColl(c) {
+			z = emptyOf(c)
+		} else if z.null {
 			z = fresh(c, g.next())
 		}
 		v = mval{form: "typed", lv: z}
@@ -961,7 +983,9 @@ func (g *gen) genOp(kind string) *op {
 					v = mval{form: "nil", lv: lval{null: true}}
 				case 1:
 					z := zeroBase(f.k.class)
-					if z.null {
+					if isColl(f.k.class) {
+						z = emptyOf(f.k.class)
+					} else if z.null {
 						z = fresh(f.k.class, g.next())
 					}
 					v = mval{form: "typed", lv: z}
@@ -1063,10 +1087,31 @@ func (g *gen) genOp(kind string) *op {
 		panic("kind " + kind)
 	}
 	g.listForms(o)
+	if updateKind(kind) {
+		if r.Chance(1, 3) {
+			g.genReturning(o)
+		}
+		// a value that is the model itself is loaded by RETURNING / assigned by the first finisher, and
+		// RETURNING loads a key into a key-less Model(&T{}): what a second finisher then addresses /
+		// writes is not fixed by the statement
+		// and RETURNING * into a Model(array of *T) leaves nil elements behind when fewer rows come back
+		if !o.valueIsModel && !(o.returning != "" && o.tform == "where") && !(o.returning == "all" && o.modelArray && o.modelElemPtr) && r.Chance(1, 3) {
+			o.next = g.followUp(o)
+		}
+	}
+	if createStructKind(kind) {
+		// the same clause on the insert paths (struct records): INSERT ... RETURNING read back with Scan
+		if r.Chance(1, 5) {
+			g.genReturning(o)
+		}
+		if (kind == "create" || kind == "create-slice" || kind == "create-batches") && r.Chance(1, 4) {
+			o.next = g.followUpCreate(o)
+		}
+	}
 	// the chain calls commute: one operation in three runs them in a random order
 	if r.Chance(1, 3) {
 		o.chainOrder = r.Perm(5)
-		present := []bool{o.useModel, len(o.conds) > 0, len(o.sel) > 0, len(o.omit) > 0, strings.HasPrefix(kind, "upsert-")}
+		present := []bool{o.useModel, len(o.conds) > 0, len(o.sel) > 0, len(o.omit) > 0, strings.HasPrefix(kind, "upsert-") || o.returning != ""}
 		last := -1
 		for _, i := range o.chainOrder {
 			if present[i] {
@@ -1078,6 +1123,145 @@ func (g *gen) genOp(kind string) *op {
 		}
 	}
 	return o
+}
+
+func updateKind(kind string) bool {
+	switch kind {
+	case "updates-struct", "updates-map", "update", "updatecolumn", "updatecolumns-struct", "updatecolumns-map":
+		return true
+	}
+	return false
+}
+
+func createStructKind(kind string) bool {
+	switch kind {
+	case "create", "create-slice", "create-batches", "upsert-cols", "upsert-assign", "upsert-all", "upsert-nothing", "save", "save-new", "save-slice":
+		return true
+	}
+	return false
+}
+
+// followUpCreate: a second Create / CreateInBatches of fresh records on the handle of o (same
+// Select/Omit and clauses, same finisher); nil when the new records would leave the INSERT without
+// any column.
+func (g *gen) followUpCreate(o *op) *op {
+	r, m := g.r, g.m
+	n := &op{kind: o.kind, family: o.family, forms: map[string]bool{}, second: true, viaResult: r.Bool(),
+		sel: o.sel, omit: o.omit, selForm: o.selForm, omitJoin: o.omitJoin, selMode: o.selMode, dropKey: o.dropKey,
+		returning: o.returning, retCols: o.retCols, batch: o.batch, elemPtr: r.Chance(1, 3)}
+	k0, _ := m.recKey(o.recs[0])
+	auto := m.keyIsZero(k0)
+	cnt := len(o.recs)
+	if o.kind != "create" {
+		cnt = r.Range(2, 4)
+	}
+	for i := 0; i < cnt; i++ {
+		k := g.newKey(i)
+		if auto {
+			k = m.zeroKey()
+		}
+		n.recs = append(n.recs, g.structRec(k))
+	}
+	g.uniformDefaults(n)
+	if !g.writesSomething(n) {
+		return nil
+	}
+	return n
+}
+
+// genReturning: the chain of an update carries Clauses(clause.Returning{}) (all columns) or a
+// Returning naming 1..3 columns; the key columns are named all together or not at all (with only a
+// part of a composite key gorm scans the returned rows into the elements of a Model(slice) by
+// position and mixes the keys of different rows: not a write-set matter).
+func (g *gen) genReturning(o *op) {
+	r, m := g.r, g.m
+	if r.Bool() {
+		o.returning = "all"
+		return
+	}
+	o.returning = "cols"
+	var cands []*field
+	for _, f := range g.nonKey() {
+		// an unreadable column named in RETURNING fails in Scan (a read-back matter, see Assumptions)
+		if !f.ignored && !strings.Contains(f.perm, "->:false") {
+			cands = append(cands, f)
+		}
+	}
+	withKey := r.Bool() || len(cands) == 0
+	if len(cands) > 0 {
+		p := r.Perm(len(cands))
+		n := r.Range(1, 3)
+		for i := 0; i < n && i < len(p); i++ {
+			o.retCols = append(o.retCols, cands[p[i]].idx)
+		}
+	}
+	if withKey {
+		var ks []int
+		for _, f := range m.pks {
+			ks = append(ks, f.idx)
+		}
+		if r.Bool() {
+			o.retCols = append(ks, o.retCols...)
+		} else {
+			o.retCols = append(o.retCols, ks...)
+		}
+	}
+}
+
+// followUp: a second update finisher for the handle of o. It shares the whole chain of o (target,
+// conditions, Select/Omit, clauses) and brings its own finisher and values. After a column-update
+// finisher the handle stays in skip-hooks mode, so only column-update finishers follow one.
+func (g *gen) followUp(o *op) *op {
+	r, m := g.r, g.m
+	kinds := []string{"updates-struct", "updates-map", "update", "updatecolumn", "updatecolumns-struct", "updatecolumns-map"}
+	if !o.hooks {
+		kinds = kinds[3:]
+	}
+	kind := core.Pick(r, kinds)
+	singleKey := len(o.modelKeys) == 1 && !o.modelSlice && (o.tform == "model-key" || o.tform == "model-key+where")
+	if hasStar(o.sel) && !singleKey && strings.HasSuffix(kind, "-struct") {
+		// "*" with a struct value writes the key column too: only where the value can carry the key of
+		// the single addressed row
+		kind = strings.TrimSuffix(kind, "-struct") + "-map"
+	}
+	n := &op{kind: kind, forms: map[string]bool{}, second: true, viaResult: r.Bool(),
+		tform: o.tform, useModel: o.useModel, modelKeys: o.modelKeys, modelSlice: o.modelSlice, modelElems: o.modelElems,
+		zeroLast: o.zeroLast, modelArray: o.modelArray, modelElemPtr: o.modelElemPtr, conds: o.conds,
+		sel: o.sel, omit: o.omit, selForm: o.selForm, omitJoin: o.omitJoin, selMode: o.selMode,
+		returning: o.returning, retCols: o.retCols}
+	n.hooks = kind == "updates-struct" || kind == "updates-map" || kind == "update"
+	switch kind {
+	case "updates-struct", "updatecolumns-struct":
+		n.family = "updates-struct"
+		if !n.hooks {
+			n.family = "updatecolumns"
+		}
+		n.recs = []*rec{g.structRec(m.zeroKey())}
+		if hasStar(o.sel) || (singleKey && r.Chance(1, 4)) {
+			m.setKey(n.recs[0], o.modelKeys[0])
+		}
+		n.valPtr = r.Bool()
+	case "updates-map", "updatecolumns-map":
+		n.family = "updates-map"
+		if !n.hooks {
+			n.family = "updatecolumns"
+		}
+		n.isMap = true
+		n.recs = []*rec{g.mapRec(n, "update", g.updateCands(n.hooks))}
+	default:
+		n.family = "update"
+		if !n.hooks {
+			n.family = "updatecolumns"
+		}
+		n.isMap = true
+		cands := g.updateCands(n.hooks)
+		f := cands[r.Intn(len(cands))]
+		rc := &rec{vals: map[int]mval{f.idx: g.mapVal(f, "update", n)}, order: []int{f.idx}, byCol: map[int]bool{}}
+		rc.byCol[f.idx] = !f.ignored && r.Bool()
+		n.col = nameRef{fi: f.idx, byCol: rc.byCol[f.idx]}
+		n.recs = []*rec{rc}
+	}
+	return n
 }
 
 // ---- execution ----------------------------------------------------------------------
@@ -1135,8 +1319,9 @@ func quoteAll(ns []string) string {
 	return strings.Join(out, ", ")
 }
 
-// exec runs the operation through gorm and returns the literal call and the result.
-func exec(db *gorm.DB, m *model, o *op) (string, *gorm.DB) {
+// exec runs the operation through gorm and returns the literal calls (an optional declaration, the
+// chain, the finisher), the handle the finisher was called on and the result.
+func exec(db *gorm.DB, m *model, o *op) (pre, chain, fin string, handle, res *gorm.DB) {
 	tx := db.Table(m.table)
 	desc := fmt.Sprintf("db.Table(%q)", m.table)
 	var selfPtr reflect.Value
@@ -1263,6 +1448,20 @@ func exec(db *gorm.DB, m *model, o *op) (string, *gorm.DB) {
 				tx = tx.Clauses(clause.OnConflict{DoNothing: true})
 				desc += ".Clauses(clause.OnConflict{DoNothing: true})"
 			}
+			switch o.returning {
+			case "all":
+				tx = tx.Clauses(clause.Returning{})
+				desc += ".Clauses(clause.Returning{})"
+			case "cols":
+				var cs []clause.Column
+				var ns []string
+				for _, fi := range o.retCols {
+					cs = append(cs, clause.Column{Name: m.fields[fi].col})
+					ns = append(ns, fmt.Sprintf("{Name: %q}", m.fields[fi].col))
+				}
+				tx = tx.Clauses(clause.Returning{Columns: cs})
+				desc += ".Clauses(clause.Returning{Columns: []clause.Column{" + strings.Join(ns, ", ") + "}})"
+			}
 		},
 	}
 	order := o.chainOrder
@@ -1272,6 +1471,12 @@ func exec(db *gorm.DB, m *model, o *op) (string, *gorm.DB) {
 	for _, i := range order {
 		steps[i]()
 	}
+	pre, fin, res = finish(tx, m, o, selfPtr, selfLit)
+	return pre, desc, fin, tx, res
+}
+
+// finish calls the finisher of o on the handle tx.
+func finish(tx *gorm.DB, m *model, o *op, selfPtr reflect.Value, selfLit string) (pre, desc string, res *gorm.DB) {
 	structArg := func() (interface{}, string) {
 		if len(o.recs) == 1 && o.kind != "create-slice" && o.kind != "create-batches" && o.kind != "save-slice" {
 			p := m.newStruct(o.recs[0].lvals(), o.recs[0].dvals)
@@ -1279,7 +1484,6 @@ func exec(db *gorm.DB, m *model, o *op) (string, *gorm.DB) {
 		}
 		return m.sliceOf(o.recs, o.elemPtr)
 	}
-	var res *gorm.DB
 	switch o.kind {
 	case "create", "create-slice", "upsert-cols", "upsert-assign", "upsert-all", "upsert-nothing":
 		v, lit := structArg()
@@ -1315,7 +1519,7 @@ func exec(db *gorm.DB, m *model, o *op) (string, *gorm.DB) {
 		var lit string
 		if o.valueIsModel {
 			v, lit = selfPtr.Interface(), "v"
-			desc = "v := " + selfLit + "; " + desc
+			pre = "v := " + selfLit + "; "
 		} else {
 			p := m.newStruct(o.recs[0].lvals(), o.recs[0].dvals)
 			lit = m.structLit(o.recs[0].lvals(), o.recs[0].dvals)
@@ -1354,5 +1558,5 @@ func exec(db *gorm.DB, m *model, o *op) (string, *gorm.DB) {
 	default:
 		panic("exec kind " + o.kind)
 	}
-	return desc, res
+	return pre, desc, res
 }
